@@ -283,7 +283,18 @@ func walkExtern(x *X, s *State, c *ssa.CallCommon, a []Val, call ssa.Value) (Val
 	var n string
 	var keyAt func(j string) []string
 	prefixed := false
-	if st, ok := a[2].(St); ok {
+	rng := a[2]
+	if iv, ok := rng.(Iface); ok {
+		rng = iv.V
+	}
+	if _, isSt := rng.(St); !isSt && rng != nil {
+		if _, isNilI := a[2].(Iface); !isNilI {
+			if _, isOpq := rng.(Opq); !isOpq {
+				x.fail("Walk with a range the engine does not model: %T", rng)
+			}
+		}
+	}
+	if st, ok := rng.(St); ok {
 		if p, has := st.F["prefix"]; has {
 			prefixed = true
 			pk := tm(p)
